@@ -174,7 +174,7 @@ func init() {
 	core.Register(&core.Prop{
 		ID: "C04", Level: "exploration",
 		Rule: "inputs, in fixed case ranges: (1) EVERY single schema fault (null, 5 wrong types, empty, absent, duplicated, oversized, negative number, object nested into itself) at EVERY JSON path of four hand-written representative documents (full-featured SPDX 2.3, CycloneDX 1.4, 1.5, nested components with duplicate/missing refs); " +
-			"(2) double faults: PRNG-chosen pairs (quick 20 000; thorough 1.2 M); (3) byte-prefix truncations of the representative documents (quick every 7th, thorough every one); (4) random bytes and JSON token soups; " +
+			"(2) double faults: PRNG-chosen pairs (quick 20 000; thorough 1.2 M); (3) byte-prefix truncations of the representative documents (quick every 7th, thorough every one); (4) random bytes, JSON token soups and texts of the tag-value family (tags with empty, blank, wrapped, foreign or truncated values, mixed line endings); " +
 			"(5) nesting of arrays/objects/components to depth 10 000; (6) size series k=4,8,16,20,24,32 for every array path and for component nesting. " +
 			"Every input goes through SniffReader, ParseStream, ParseStreamWithOptions for each of the 7 registered formats and each registered parser called directly, inside a supervised child: recover() catches panics, the parent attributes a dead child to the logged case, " +
 			"the return-shape predicate (document XOR error; metadata and node list present) is checked, and the cost monitor (bytes allocated + CPU time, never wall time) flags local growth exponents above 3.5 on two consecutive size steps. " +
@@ -305,10 +305,42 @@ func c04NestedComponents(depth int, ver string) []byte {
 
 var c04Tokens = []string{"{", "}", "[", "]", ":", ",", `"bomFormat"`, `"CycloneDX"`, `"specVersion"`, `"1.4"`, `"1.5"`, `"spdxVersion"`, `"SPDX-2.3"`, `"SPDXVersion: SPDX-2.3"`,
 	`"components"`, `"packages"`, `"files"`, `"relationships"`, `"metadata"`, `"component"`, `"licenses"`, `"license"`, `"hashes"`, `"externalRefs"`, `"SPDXID"`, `"SPDXRef-a"`,
-	"null", "true", "false", "0", "-1", "1e999", `""`, `"\ud800"`, "\xff", "\x00", " ", "\n", "SPDXVersion: SPDX-2.3\n", "DataLicense: CC0-1.0\n", `'SPDX-2.2'`}
+	"null", "true", "false", "0", "-1", "1e999", `""`, `"\ud800"`, "\xff", "\x00", " ", "\n", "SPDXVersion: SPDX-2.3\n", "DataLicense: CC0-1.0\n", `'SPDX-2.2'`, "SPDXVersion:", "SPDXVersion:\n", "SPDXVersion: \r\n"}
+
+var c04Tags = []string{"SPDXVersion", "DataLicense", "SPDXID", "DocumentName", "DocumentNamespace", "Creator", "Created", "PackageName", "PackageVersion", "FileName", "Relationship", "spdxVersion", "bomFormat", "SPDXVersion ", " SPDXVersion"}
+var c04TagValues = []string{"", " ", "   ", "\t", "\r", " \r", "SPDX-2.3", " SPDX-2.3", " SPDX-2.2 ", " SPDX-", " SPDX-3.0", " 2.3", " <text>", " <text>a", " <text>a\nb</text>", " CC0-1.0", " SPDXRef-DOCUMENT", " 'SPDX-2.3'", " \"SPDX-2.3\"", " \xff", ":", " :"}
+
+// c04TagValue: non-JSON text in the tag-value family - tags with empty, blank, wrapped, truncated and foreign values,
+// mixed line endings, optionally cut at an arbitrary byte.
+func c04TagValue(r *rand.Rand) []byte {
+	var sb strings.Builder
+	if r.Intn(3) == 0 {
+		sb.WriteString(gen.Pick(r, []string{"\n", " ", "\ufeff", "# comment\n", "\r\n"}))
+	}
+	n := 1 + r.Intn(6)
+	for i := 0; i < n; i++ {
+		tag := gen.Pick(r, c04Tags)
+		if i == 0 && r.Intn(2) == 0 {
+			tag = "SPDXVersion"
+		}
+		sb.WriteString(tag)
+		if r.Intn(10) != 0 {
+			sb.WriteString(":")
+		}
+		sb.WriteString(gen.Pick(r, c04TagValues))
+		sb.WriteString(gen.Pick(r, []string{"\n", "\n", "\r\n", "", "\n\n"}))
+	}
+	b := []byte(sb.String())
+	if r.Intn(4) == 0 && len(b) > 0 {
+		b = b[:r.Intn(len(b)+1)]
+	}
+	return b
+}
 
 func c04Soup(r *rand.Rand) []byte {
-	switch r.Intn(4) {
+	switch r.Intn(5) {
+	case 4:
+		return c04TagValue(r)
 	case 0:
 		b := make([]byte, r.Intn(300))
 		r.Read(b)
